@@ -63,7 +63,7 @@ def worker_task(task):
         samples = []; reached = collections.Counter(); ok_paths = [0]
         def on_path(st, kind, info):
             for tag, v in st.events:
-                if tag == 'reach': reached[v] += 1
+                if type(tag) is str and tag == 'reach': reached[v] += 1
             if kind == 'ok':
                 ok_paths[0] += 1
                 if len(samples) < sample_quota:
